@@ -1,15 +1,31 @@
-(** PyLite: a deep embedding of the small Python fragment in which verde's
-    scalar coordinate functions are written, with an exact-arithmetic
-    big-step semantics.  `harness/translate_pylite.py` serialises the Python
-    `ast` of those functions - read from /repo on every run - into terms of
-    [func]; the generated file then proves, for ALL arguments, that running
-    the serialised source gives what the hand-written model gives
-    (Proofs/PyLiteProofs.v provides the proof scripts).  The model is thereby
-    tied to the current source by a re-checked proof, in addition to the
-    sampled correspondence.
+(** PyLite: a deep embedding of the small Python fragment in which some of
+    verde's functions are written, with an exact-arithmetic big-step
+    semantics.  `harness/translate_pylite.py` serialises the Python `ast` of
+    those functions - read from /repo on every run - into terms of [func];
+    the generated files then prove, for ALL arguments, that running the
+    serialised source gives what the hand-written model gives (the proof
+    scripts are in harness/pylite_*.v.tmpl).  The model is thereby tied to
+    the current source by a re-checked proof, in addition to the sampled
+    correspondence.
 
     Numbers: Python ints are [VZ], floats are read as the rationals they
-    denote ([VQ]); [/] is true division; [round] is half-to-even ([rhe]).
+    denote ([VQ]); [/] is true division, [//] and [%] floor ([x % m] is
+    [x - m*floor(x/m)]: the sign of the divisor).  A zero divisor is outside
+    the fragment ([Stuck]: Python numbers raise ZeroDivisionError, numpy
+    numbers give inf/nan/0 with a warning).  [round] is half-to-even ([rhe]).
+
+    Sequences: [VL] is a Python list or tuple (the two are not distinguished;
+    the serialiser admits [.append] and item assignment only on variables
+    that hold a fresh list / array).  [VA] is a numpy array: 1-D when its
+    elements are scalars, 2-D when they are [VA] rows.  Only arrays
+    broadcast; int arrays and float arrays are told apart by their elements
+    ([np.array] unifies them, assignment into a float array casts).
+
+    Mutation ([x.append(v)], [x[i] = v], [x[:k] = v]) is modelled by
+    rebinding [x].  That is faithful when no alias of the mutated object is
+    live, which the serialiser checks syntactically ("freshness" in
+    harness/translate_pylite.py).
+
     Anything outside the fragment evaluates to [Stuck], which makes the
     equivalence proofs fail (fail closed). *)
 From Coq Require Import QArith Qround Qabs ZArith List Bool String.
@@ -23,9 +39,10 @@ Inductive val :=
 | VZ (z : Z)
 | VQ (q : Q)
 | VS (s : string)
-| VL (l : list val).          (* list / tuple / 1-D array *)
+| VL (l : list val)           (* list / tuple *)
+| VA (l : list val).          (* numpy array *)
 
-Inductive binop := Add | Sub | Mul | Div.
+Inductive binop := Add | Sub | Mul | Div | FloorDiv | Mod.
 Inductive cmpop := CLt | CLe | CGt | CGe | CEq | CNe.
 
 Inductive expr :=
@@ -39,15 +56,22 @@ Inductive expr :=
 | EOr (a b : expr)
 | EIsNone (a : expr) (negated : bool)        (* x is None / x is not None *)
 | EIn (a : expr) (l : list expr) (negated : bool)
-| ECall (f : string) (args : list expr)
+| ECall (f : string) (args : list expr)      (* f(args); methods and attributes are calls of "meth:m" / "attr:a" on the object *)
 | ETuple (l : list expr)
-| EIndex (a : expr) (i : Z)                  (* a[i], i >= 0 *)
-| ESliceTo (a : expr) (k : Z)                (* a[:k]  (k = -1: all but the last; k >= 0: first k) *).
+| EIndex (a : expr) (i : Z)                  (* a[i], i >= 0 a literal *)
+| EIdx (a : expr) (i : expr)                 (* a[i], i computed (negative: from the end) *)
+| ESliceTo (a : expr) (k : Z)                (* a[:k]  (k = -1: all but the last; k >= 0: first k) *)
+| ESliceFrom (a : expr) (k : Z).             (* a[k:], k >= 0 *)
 
 Inductive stmt :=
 | SAssign (targets : list string) (e : expr)     (* x = e ; a, b = e *)
 | SAug (x : string) (op : binop) (e : expr)      (* x op= e *)
 | SIf (c : expr) (th el : list stmt)
+| SFor (targets : list string) (it : expr) (body : list stmt)   (* for x in it / for a, b in it (no break/continue/else) *)
+| SAppend (x : string) (e : expr)                (* x.append(e), x a list *)
+| SSetItem (x : string) (i : expr) (e : expr)    (* x[i] = e *)
+| SSetSlice (x : string) (k : Z) (e : expr)      (* x[:k] = e, k >= 0 *)
+| SExpr (e : expr)                               (* an expression evaluated for its exceptions *)
 | SRaise
 | SReturn (e : expr)
 | SPass.
@@ -69,29 +93,47 @@ Fixpoint lookup (env : list (string * val)) (x : string) : option val :=
 Definition toQ (v : val) : option Q :=
   match v with VZ z => Some (inject_Z z) | VQ q => Some q | _ => None end.
 
+(** Python's float [%] and [//] on exact numbers *)
+Definition qfloordiv (x y : Q) : Q := inject_Z (Qfloor (x / y)).
+Definition qmod (x y : Q) : Q := x - y * inject_Z (Qfloor (x / y)).
+
 Definition arith (op : binop) (a b : val) : option val :=
   match op, a, b with
   | Add, VZ x, VZ y => Some (VZ (x + y))
   | Sub, VZ x, VZ y => Some (VZ (x - y))
   | Mul, VZ x, VZ y => Some (VZ (x * y))
-  | Div, _, _ => match toQ a, toQ b with Some x, Some y => Some (VQ (x / y)) | _, _ => None end
+  | FloorDiv, VZ x, VZ y => if (y =? 0)%Z then None else Some (VZ (x / y))
+  | Mod, VZ x, VZ y => if (y =? 0)%Z then None else Some (VZ (x mod y))
   | Add, _, _ => match toQ a, toQ b with Some x, Some y => Some (VQ (x + y)) | _, _ => None end
   | Sub, _, _ => match toQ a, toQ b with Some x, Some y => Some (VQ (x - y)) | _, _ => None end
   | Mul, _, _ => match toQ a, toQ b with Some x, Some y => Some (VQ (x * y)) | _, _ => None end
+  | Div, _, _ => match toQ a, toQ b with
+                 | Some x, Some y => if Qeqb y 0 then None else Some (VQ (x / y))
+                 | _, _ => None end
+  | FloorDiv, _, _ => match toQ a, toQ b with
+                      | Some x, Some y => if Qeqb y 0 then None else Some (VQ (qfloordiv x y))
+                      | _, _ => None end
+  | Mod, _, _ => match toQ a, toQ b with
+                 | Some x, Some y => if Qeqb y 0 then None else Some (VQ (qmod x y))
+                 | _, _ => None end
   end.
 
-(** array (+|-|*|/) scalar and scalar op array broadcast; array op array element-wise *)
-Fixpoint map_opt {A B} (f : A -> option B) (l : list A) : option (list B) :=
+Section MapOpt.
+Context {A B : Type} (f : A -> option B).
+Fixpoint map_opt (l : list A) : option (list B) :=
   match l with
   | [] => Some []
-  | x :: t => match f x, map_opt f t with Some y, Some r => Some (y :: r) | _, _ => None end
+  | x :: t => match f x, map_opt t with Some y, Some r => Some (y :: r) | _, _ => None end
   end.
+End MapOpt.
 
+(** array (+|-|*|/|//|%) scalar and scalar op array broadcast (1-D);
+    everything else on sequences is outside the fragment *)
 Definition binop_val (op : binop) (a b : val) : option val :=
   match a, b with
-  | VL l, VL r => None
-  | VL l, _ => option_map VL (map_opt (fun x => arith op x b) l)
-  | _, VL r => option_map VL (map_opt (fun y => arith op a y) r)
+  | VA l, VA r => None
+  | VA l, _ => option_map VA (map_opt (fun x => arith op x b) l)
+  | _, VA r => option_map VA (map_opt (fun y => arith op a y) r)
   | _, _ => arith op a b
   end.
 
@@ -112,25 +154,163 @@ Definition cmp_val (op : cmpop) (a b : val) : option bool :=
       end
   end.
 
+(** comparison with array-scalar broadcasting (a bool array) *)
+Definition cmp_bc (op : cmpop) (a b : val) : option val :=
+  match a, b with
+  | VA l, VA r => None
+  | VA l, _ => option_map VA (map_opt (fun x => option_map VB (cmp_val op x b)) l)
+  | _, VA r => option_map VA (map_opt (fun y => option_map VB (cmp_val op a y)) r)
+  | _, _ => option_map VB (cmp_val op a b)
+  end.
+
+(** truth value testing ([if x:], [not x]); an array is ambiguous in numpy *)
+Definition truthy (v : val) : option bool :=
+  match v with
+  | VNone => Some false
+  | VB b => Some b
+  | VZ z => Some (negb (z =? 0)%Z)
+  | VQ q => Some (negb (Qeqb q 0))
+  | VS s => Some (negb (String.eqb s ""))
+  | VL l => Some (match l with [] => false | _ :: _ => true end)
+  | VA _ => None
+  end.
+
 Definition unQ (l : list val) : option (list Q) := map_opt toQ l.
 
-(** builtins of the fragment *)
+Definition seq_of (v : val) : option (list val) :=
+  match v with VL l => Some l | VA l => Some l | _ => None end.
+
+Definition is_scalar (v : val) : bool :=
+  match v with VB _ | VZ _ | VQ _ => true | _ => false end.
+
+(** ** arrays *)
+Fixpoint has_Q (v : val) : bool :=
+  match v with
+  | VQ _ => true
+  | VL l => existsb has_Q l
+  | VA l => existsb has_Q l
+  | _ => false
+  end.
+
+(** np.array(v) with the numeric leaves cast to float when [cast] *)
+Fixpoint to_array (cast : bool) (v : val) : option val :=
+  match v with
+  | VZ z => Some (if cast then VQ (inject_Z z) else VZ z)
+  | VQ q => Some (VQ q)
+  | VB b => if cast then None else Some (VB b)
+  | VL l => option_map VA (map_opt (to_array cast) l)
+  | VA l => option_map VA (map_opt (to_array cast) l)
+  | _ => None
+  end.
+
+(** the shape, read along the first elements; [rect] says that it is the
+    shape of every element (numpy refuses ragged input) *)
+Fixpoint shape_of (v : val) : list nat :=
+  match v with
+  | VL l => List.length l :: match l with x :: _ => shape_of x | [] => [] end
+  | VA l => List.length l :: match l with x :: _ => shape_of x | [] => [] end
+  | _ => []
+  end.
+
+Definition shape_eqb (a b : list nat) : bool :=
+  (fix go (a b : list nat) : bool :=
+     match a, b with
+     | [], [] => true
+     | x :: a', y :: b' => Nat.eqb x y && go a' b'
+     | _, _ => false
+     end) a b.
+
+Fixpoint rect (v : val) : bool :=
+  match v with
+  | VL l => forallb rect l &&
+            match l with x :: t => forallb (fun y => shape_eqb (shape_of y) (shape_of x)) t | [] => true end
+  | VA l => forallb rect l &&
+            match l with x :: t => forallb (fun y => shape_eqb (shape_of y) (shape_of x)) t | [] => true end
+  | _ => true
+  end.
+
+Definition np_array (v : val) : option val :=
+  match v with
+  | VL _ | VA _ => if rect v then to_array (has_Q v) v else None
+  | _ => None
+  end.
+
+(** the value stored by [a[..] = v] in an array with the elements [l] whose
+    replaced part is [old]: cast to the array's type, same shape (numpy would
+    broadcast or truncate otherwise: outside the fragment) *)
+Definition store_cast (l : list val) (old v : val) : option val :=
+  if negb (existsb has_Q l) && has_Q v then None else
+  if negb (rect v) then None else
+  match to_array (existsb has_Q l) v with
+  | Some v' => if shape_eqb (shape_of v') (shape_of old) then Some v' else None
+  | None => None
+  end.
+
+Fixpoint set_nth (l : list val) (i : nat) (v : val) : option (list val) :=
+  match l, i with
+  | _ :: t, O => Some (v :: t)
+  | x :: t, S k => option_map (cons x) (set_nth t k v)
+  | [], _ => None
+  end.
+
+Fixpoint nth_val (l : list val) (i : nat) : option val :=
+  match l, i with
+  | x :: _, O => Some x
+  | _ :: t, S k => nth_val t k
+  | [], _ => None
+  end.
+
+(** Python's index normalisation: [None] = IndexError *)
+Definition norm_index (n : nat) (i : Z) : option nat :=
+  let j := if (i <? 0)%Z then (i + Z.of_nat n)%Z else i in
+  if (j <? 0)%Z || (Z.of_nat n <=? j)%Z then None else Some (Z.to_nat j).
+
+Fixpoint where3 (c x y : list val) : option (list val) :=
+  match c, x, y with
+  | [], [], [] => Some []
+  | VB b :: c', a :: x', d :: y' => option_map (cons (if b then a else d)) (where3 c' x' y')
+  | _, _, _ => None
+  end.
+
+(** an operand of np.where broadcast to length n *)
+Definition bc_list (n : nat) (v : val) : option (list val) :=
+  match v with
+  | VA l => if Nat.eqb (List.length l) n then Some l else None
+  | VZ _ | VQ _ => Some (repeat v n)
+  | _ => None
+  end.
+
+Fixpoint enumerate_from (i : Z) (l : list val) : list val :=
+  match l with [] => [] | x :: t => VL [VZ i; x] :: enumerate_from (i + 1) t end.
+
+Definition all_scalar (l : list val) : bool := forallb is_scalar l.
+
+Definition unB (l : list val) : option (list bool) :=
+  map_opt (fun v => match v with VB b => Some b | _ => None end) l.
+
+(** builtins of the fragment, on exact numbers *)
 Definition call (f : string) (args : list val) : option (option val) :=   (* None: stuck; Some None: raises *)
   let is := String.eqb f in
-  if is "len" then match args with [VL l] => Some (Some (VZ (Z.of_nat (List.length l)))) | _ => None end
+  if is "len" then match args with [VL l] => Some (Some (VZ (Z.of_nat (List.length l))))
+                                 | [VA l] => Some (Some (VZ (Z.of_nat (List.length l)))) | _ => None end
   else if is "round" then match args with [v] => match toQ v with Some q => Some (Some (VZ (rhe q))) | None => None end | _ => None end
   else if is "int" then match args with [VZ z] => Some (Some (VZ z)) | _ => None end
   else if is "abs" then match args with [VZ z] => Some (Some (VZ (Z.abs z))) | [VQ q] => Some (Some (VQ (Qabs q))) | _ => None end
+  else if is "reversed" then match args with [VL l] => Some (Some (VL (rev l))) | _ => None end
+  else if is "enumerate" then match args with [VL l] => Some (Some (VL (enumerate_from 0 l))) | _ => None end
+  else if is "tuple" then match args with [VL l] => Some (Some (VL l)) | _ => None end
+  else if is "list" then match args with [VL l] => Some (Some (VL l)) | _ => None end
   else if is "np.isscalar" then
     match args with
     | [VL _] => Some (Some (VB false))
+    | [VA _] => Some (Some (VB false))
     | [VZ _] => Some (Some (VB true))
     | [VQ _] => Some (Some (VB true))
     | _ => None
     end
   else if is "np.min" then
     match args with
-    | [VL l] => match unQ l with
+    | [VA l] => match unQ l with
                 | Some (x :: t) => Some (Some (VQ (Qmin_list 0 (x :: t))))
                 | Some [] => Some None
                 | None => None end
@@ -138,7 +318,7 @@ Definition call (f : string) (args : list val) : option (option val) :=   (* Non
     end
   else if is "np.max" then
     match args with
-    | [VL l] => match unQ l with
+    | [VA l] => match unQ l with
                 | Some (x :: t) => Some (Some (VQ (Qmax_list 0 (x :: t))))
                 | Some [] => Some None
                 | None => None end
@@ -148,23 +328,62 @@ Definition call (f : string) (args : list val) : option (option val) :=   (* Non
     match args with
     | [a; b; VZ n] =>
         match toQ a, toQ b with
-        | Some x, Some y => if (n <? 0)%Z then Some None else Some (Some (VL (map VQ (linspace x y (Z.to_nat n)))))
+        | Some x, Some y => if (n <? 0)%Z then Some None else Some (Some (VA (map VQ (linspace x y (Z.to_nat n)))))
         | _, _ => None
         end
     | _ => None
     end
+  else if is "np.array" then
+    match args with [v] => match np_array v with Some a => Some (Some a) | None => None end | _ => None end
+  else if is "np.atleast_1d" then
+    match args with
+    | [VZ z] => Some (Some (VA [VZ z]))
+    | [VQ q] => Some (Some (VA [VQ q]))
+    | [v] => match np_array v with Some a => Some (Some a) | None => None end
+    | _ => None
+    end
+  else if is "np.any" then
+    match args with
+    | [VB b] => Some (Some (VB b))
+    | [VA l] => match unB l with Some bs => Some (Some (VB (existsb (fun b => b) bs))) | None => None end
+    | _ => None
+    end
+  else if is "np.where" then
+    match args with
+    | [VA c; x; y] =>
+        let n := List.length c in
+        match bc_list n x, bc_list n y with
+        | Some xs, Some ys =>
+            match where3 c xs ys with
+            | Some r => match to_array (has_Q x || has_Q y) (VA r) with Some a => Some (Some a) | None => None end
+            | None => None
+            end
+        | _, _ => None
+        end
+    | _ => None
+    end
+  else if is "np.arange" then
+    match args with
+    | [VZ a; VZ b] => Some (Some (VA (map (fun i => VZ (a + Z.of_nat i)) (seq 0 (Z.to_nat (b - a))))))
+    | _ => None
+    end
+  else if is "isinstance:str" then
+    match args with [VS _] => Some (Some (VB true)) | [_] => Some (Some (VB false)) | _ => None end
+  else if is "isinstance:tuple" then     (* lists and tuples are not distinguished: stuck on a [VL] *)
+    match args with [VL _] => None | [_] => Some (Some (VB false)) | _ => None end
+  else if is "isinstance:list" then
+    match args with [VL _] => None | [_] => Some (Some (VB false)) | _ => None end
+  else if is "meth:ravel" then
+    match args with [VA l] => if all_scalar l then Some (Some (VA l)) else None | _ => None end
+  else if is "attr:size" then
+    match args with [VA l] => if all_scalar l then Some (Some (VZ (Z.of_nat (List.length l)))) else None | _ => None end
   else None.
-
-Fixpoint nth_val (l : list val) (i : nat) : option val :=
-  match l, i with
-  | x :: _, O => Some x
-  | _ :: t, S k => nth_val t k
-  | [], _ => None
-  end.
 
 Section Eval.
 (** functions of the same module that the fragment may call, given by their
-    semantics (instantiated with [run] of their own serialised source) *)
+    semantics (instantiated with [run] of their own serialised source), and
+    library functions modelled by specification (stated where the table is
+    defined) *)
 Variable user : string -> option (list val -> option (option val)).
 
 (** expression evaluation: [None] = stuck, [Some None] = raised *)
@@ -189,12 +408,15 @@ Fixpoint eval (env : list (string * val)) (e : expr) {struct e} : option (option
       end
   | ECmp op a b =>
       match eval env a, eval env b with
-      | Some (Some x), Some (Some y) => match cmp_val op x y with Some r => ret (VB r) | None => None end
+      | Some (Some x), Some (Some y) => match cmp_bc op x y with Some r => ret r | None => None end
       | Some None, _ => Some None
       | Some (Some _), Some None => Some None
       | _, _ => None
       end
-  | ENot a => match eval env a with Some (Some (VB b)) => ret (VB (negb b)) | Some None => Some None | _ => None end
+  | ENot a => match eval env a with
+              | Some (Some v) => match truthy v with Some b => ret (VB (negb b)) | None => None end
+              | Some None => Some None
+              | None => None end
   | EAnd a b =>
       match eval env a with
       | Some (Some (VB false)) => ret (VB false)
@@ -261,15 +483,41 @@ Fixpoint eval (env : list (string * val)) (e : expr) {struct e} : option (option
       end
   | EIndex a i =>
       match eval env a with
-      | Some (Some (VL l)) => if (i <? 0)%Z then None else
-                              match nth_val l (Z.to_nat i) with Some v => ret v | None => Some None end   (* IndexError *)
+      | Some (Some v) =>
+          match seq_of v with
+          | Some l => if (i <? 0)%Z then None else
+                      match nth_val l (Z.to_nat i) with Some x => ret x | None => Some None end   (* IndexError *)
+          | None => None
+          end
       | Some None => Some None
-      | _ => None
+      | None => None
+      end
+  | EIdx a i =>
+      match eval env a, eval env i with
+      | Some (Some v), Some (Some (VZ j)) =>
+          match seq_of v with
+          | Some l => match norm_index (List.length l) j with
+                      | Some k => match nth_val l k with Some x => ret x | None => Some None end
+                      | None => Some None end                                                     (* IndexError *)
+          | None => None
+          end
+      | Some None, _ => Some None
+      | Some (Some _), Some None => Some None
+      | _, _ => None
       end
   | ESliceTo a k =>
       match eval env a with
       | Some (Some (VL l)) => if (k =? -1)%Z then ret (VL (removelast l))
                               else if (0 <=? k)%Z then ret (VL (firstn (Z.to_nat k) l)) else None
+      | Some (Some (VA l)) => if (k =? -1)%Z then ret (VA (removelast l))
+                              else if (0 <=? k)%Z then ret (VA (firstn (Z.to_nat k) l)) else None
+      | Some None => Some None
+      | _ => None
+      end
+  | ESliceFrom a k =>
+      match eval env a with
+      | Some (Some (VL l)) => if (0 <=? k)%Z then ret (VL (skipn (Z.to_nat k) l)) else None
+      | Some (Some (VA l)) => if (0 <=? k)%Z then ret (VA (skipn (Z.to_nat k) l)) else None
       | Some None => Some None
       | _ => None
       end
@@ -283,6 +531,45 @@ Fixpoint bind_targets (targets : list string) (vs : list val) (env : list (strin
   | _, _ => None
   end.
 
+(** binding the target(s) of an assignment / a loop to a value:
+    [inr true] = ValueError (wrong number of values), [inr false] = stuck *)
+Definition bind_pattern (targets : list string) (v : val) (env : list (string * val))
+  : list (string * val) + bool :=
+  match targets with
+  | [x] => inl ((x, v) :: env)
+  | _ => match seq_of v with
+         | Some vs => match bind_targets targets vs env with Some env' => inl env' | None => inr true end
+         | None => inr false
+         end
+  end.
+
+(** x[i] = v *)
+Definition set_item (a : val) (i : Z) (v : val) : option (option val) :=
+  match a with
+  | VL l => match norm_index (List.length l) i with
+            | Some k => match set_nth l k v with Some l' => Some (Some (VL l')) | None => Some None end
+            | None => Some None end
+  | VA l => match norm_index (List.length l) i with
+            | Some k => match nth_val l k with
+                        | Some old => match store_cast l old v with
+                                      | Some v' => match set_nth l k v' with Some l' => Some (Some (VA l')) | None => None end
+                                      | None => None end
+                        | None => Some None end
+            | None => Some None end
+  | _ => None
+  end.
+
+(** x[:k] = v *)
+Definition set_slice_to (a : val) (k : Z) (v : val) : option (option val) :=
+  if (k <? 0)%Z then None else
+  match a with
+  | VL l => match seq_of v with Some r => Some (Some (VL (r ++ skipn (Z.to_nat k) l))) | None => None end
+  | VA l => match store_cast l (VA (firstn (Z.to_nat k) l)) v with
+            | Some (VA r) => Some (Some (VA (r ++ skipn (Z.to_nat k) l)))
+            | _ => None end
+  | _ => None
+  end.
+
 Fixpoint exec (s : stmt) (env : list (string * val)) {struct s} : outcome :=
   let run_list :=
     fix run_list (l : list stmt) (env : list (string * val)) : outcome :=
@@ -291,12 +578,12 @@ Fixpoint exec (s : stmt) (env : list (string * val)) {struct s} : outcome :=
       | s :: t => match exec s env with Normal env' => run_list t env' | o => o end
       end in
   match s with
-  | SAssign [x] e =>
-      match eval env e with Some (Some v) => Normal ((x, v) :: env) | Some None => Raised | None => Stuck end
   | SAssign targets e =>
       match eval env e with
-      | Some (Some (VL vs)) => match bind_targets targets vs env with Some env' => Normal env' | None => Raised end
-      | Some (Some _) => Stuck
+      | Some (Some v) => match bind_pattern targets v env with
+                         | inl env' => Normal env'
+                         | inr true => Raised
+                         | inr false => Stuck end
       | Some None => Raised
       | None => Stuck
       end
@@ -308,11 +595,59 @@ Fixpoint exec (s : stmt) (env : list (string * val)) {struct s} : outcome :=
       end
   | SIf c th el =>
       match eval env c with
-      | Some (Some (VB true)) => run_list th env
-      | Some (Some (VB false)) => run_list el env
+      | Some (Some v) => match truthy v with
+                         | Some true => run_list th env
+                         | Some false => run_list el env
+                         | None => Stuck end
       | Some None => Raised
-      | _ => Stuck
+      | None => Stuck
       end
+  | SFor targets it body =>
+      match eval env it with
+      | Some (Some v) =>
+          match seq_of v with
+          | Some vs =>
+              (fix loop (vs : list val) (env : list (string * val)) : outcome :=
+                 match vs with
+                 | [] => Normal env
+                 | v :: t => match bind_pattern targets v env with
+                             | inl env' => match run_list body env' with Normal env'' => loop t env'' | o => o end
+                             | inr true => Raised
+                             | inr false => Stuck end
+                 end) vs env
+          | None => Stuck
+          end
+      | Some None => Raised
+      | None => Stuck
+      end
+  | SAppend x e =>
+      match lookup env x, eval env e with
+      | Some (VL l), Some (Some v) => Normal ((x, VL (l ++ [v])) :: env)
+      | Some _, Some None => Raised
+      | _, _ => Stuck
+      end
+  | SSetItem x i e =>
+      match lookup env x, eval env i, eval env e with
+      | Some a, Some (Some (VZ j)), Some (Some v) =>
+          match set_item a j v with
+          | Some (Some a') => Normal ((x, a') :: env)
+          | Some None => Raised
+          | None => Stuck end
+      | Some _, Some None, _ => Raised
+      | Some _, Some (Some _), Some None => Raised
+      | _, _, _ => Stuck
+      end
+  | SSetSlice x k e =>
+      match lookup env x, eval env e with
+      | Some a, Some (Some v) =>
+          match set_slice_to a k v with
+          | Some (Some a') => Normal ((x, a') :: env)
+          | Some None => Raised
+          | None => Stuck end
+      | Some _, Some None => Raised
+      | _, _ => Stuck
+      end
+  | SExpr e => match eval env e with Some (Some _) => Normal env | Some None => Raised | None => Stuck end
   | SRaise => Raised
   | SReturn e => match eval env e with Some (Some v) => Returned v | Some None => Raised | None => Stuck end
   | SPass => Normal env
@@ -323,6 +658,32 @@ Fixpoint exec_list (l : list stmt) (env : list (string * val)) : outcome :=
   | [] => Normal env
   | s :: t => match exec s env with Normal env' => exec_list t env' | o => o end
   end.
+
+(** the statement lists inside [exec] run as [exec_list] *)
+Lemma run_list_exec_list l : forall env,
+  (fix run_list (l : list stmt) (env : list (string * val)) : outcome :=
+     match l with
+     | [] => Normal env
+     | s :: t => match exec s env with Normal env' => run_list t env' | o => o end
+     end) l env = exec_list l env.
+Proof.
+  induction l as [|a t IH]; intros env; [reflexivity|].
+  cbn [exec_list]. destruct (exec a env); reflexivity.
+Qed.
+
+Lemma exec_SIf c th el env :
+  exec (SIf c th el) env =
+  match eval env c with
+  | Some (Some v) => match truthy v with
+                     | Some true => exec_list th env
+                     | Some false => exec_list el env
+                     | None => Stuck end
+  | Some None => Raised
+  | None => Stuck
+  end.
+Proof.
+  reflexivity.
+Qed.
 
 (** calling a function: falling off the end returns None *)
 Definition run (f : func) (args : list val) : outcome :=
@@ -345,4 +706,37 @@ Definition as_callee (o : outcome) : option (option val) :=
   | Returned v => Some (Some v)
   | Raised => Some None
   | _ => None
+  end.
+
+(** equality of values / outcomes up to [Qeq] on the floats (Q is not
+    canonical); [Stuck] and [Normal] equal nothing *)
+Fixpoint val_eqb (a b : val) : bool :=
+  match a, b with
+  | VNone, VNone => true
+  | VB x, VB y => Bool.eqb x y
+  | VZ x, VZ y => (x =? y)%Z
+  | VQ x, VQ y => Qeqb x y
+  | VS x, VS y => String.eqb x y
+  | VL l, VL r =>
+      (fix go (l r : list val) : bool :=
+         match l, r with
+         | [], [] => true
+         | x :: l', y :: r' => val_eqb x y && go l' r'
+         | _, _ => false
+         end) l r
+  | VA l, VA r =>
+      (fix go (l r : list val) : bool :=
+         match l, r with
+         | [], [] => true
+         | x :: l', y :: r' => val_eqb x y && go l' r'
+         | _, _ => false
+         end) l r
+  | _, _ => false
+  end.
+
+Definition outcome_eqb (a b : outcome) : bool :=
+  match a, b with
+  | Returned x, Returned y => val_eqb x y
+  | Raised, Raised => true
+  | _, _ => false
   end.
